@@ -1,6 +1,5 @@
-(* Proofs/MunkresTerm.v -- termination of the Munkres model within its fuel, and total correctness.
-   Bound hypothesis: all entries lie in [0, B] with max(r,c) * B < sys.maxsize (this is what guarantees that
-   find_smallest, which starts from sys.maxsize, returns the true minimum of the uncovered cells). *)
+(* Proofs/MunkresTerm.v -- termination of the Munkres model within its fuel, and total correctness, for
+   arbitrary integer entries (find_smallest returns the true minimum of the uncovered cells since fix ea8a5bc). *)
 From Coq Require Import ZArith List Bool Arith Lia Permutation Sorted.
 From Verif.Model Require Import Munkres.
 From Verif.Proofs Require Import MunkresDuality MunkresSpec MunkresInvLib MunkresInvDefs MunkresStep123 MunkresStep46
@@ -33,8 +32,6 @@ Proof. reflexivity. Qed.
 Section Term.
   Variable n : nat.
   Variable M0 : nat -> nat -> Z.
-  Hypothesis Hnn : forall i j, i < n -> j < n -> (0 <= M0 i j)%Z.
-  Hypothesis Hdiag : (lsum (map (fun i => M0 i i) (seq 0 n)) < zmaxsize)%Z.
 
   Let W := 2 * n + 5.
 
@@ -66,7 +63,7 @@ Section Term.
       + rewrite drive_3. apply IH. destruct H as [T F].
         destruct (step3_T n M0 s T) as [N|[N [T' [R0 K']]]]; rewrite N; unfold TT.
         * remember ((n - kc n s) * W) as X. lia.
-        * pose proof T' as [_ [_ [KL _]]]. rewrite K' in *. rewrite R0.
+        * pose proof T' as [_ [KL _]]. rewrite K' in *. rewrite R0.
           assert (EW : (n - kc n s) * W = (n - kc n s - 1) * W + W).
           { replace (n - kc n s) with (S (n - kc n s - 1)) at 1 by lia. simpl. lia. }
           rewrite EW in F. remember ((n - kc n s - 1) * W) as X. unfold W in F.
@@ -86,52 +83,63 @@ Section Term.
         assert ((n - kc n s') * W <= (n - kc n s - 1) * W) by (apply Nat.mul_le_mono_r; lia).
         remember ((n - kc n s - 1) * W) as X. remember ((n - kc n s') * W) as Y. lia.
       + rewrite drive_6. destruct H as [T F].
-        destruct (step6_T n M0 Hdiag s T) as [s' [E [T' [ER [EK [i [j [Hi [Hj U]]]]]]]]]. rewrite E. apply IH. unfold TT.
+        destruct (step6_T n M0 s T) as [s' [E [T' [ER [EK [i [j [Hi [Hj U]]]]]]]]]. rewrite E. apply IH. unfold TT.
         rewrite ER, EK. remember ((n - kc n s - 1) * W) as X. split; [exact T'|]. split; [lia|].
         intro NZ. rewrite (NZ i j Hi Hj) in U. discriminate.
       + rewrite drive_7. discriminate.
   Qed.
 End Term.
 
-Lemma lsum_const : forall (B : Z) (l : list nat), lsum (map (fun _ => B) l) = (B * Z.of_nat (length l))%Z.
-Proof. induction l as [|x l IH]; simpl lsum; [simpl; lia|]. rewrite IH. simpl length. lia. Qed.
-
-(* termination: under the bound hypothesis the model never exhausts its fuel and never takes an error branch *)
-Theorem munkres_terminates : forall (r c : nat) (M : list (list Z)) (B : Z),
-  1 <= r -> 1 <= c -> rect r c M ->
-  (forall i j, i < r -> j < c -> (0 <= gz M i j <= B)%Z) ->
-  (Z.of_nat (Nat.max r c) * B < zmaxsize)%Z ->
-  computeZ M <> None.
+(* termination: the model never exhausts its fuel and never takes an error branch, for arbitrary integer entries *)
+Theorem munkres_terminates : forall (r c : nat) (M : list (list Z)),
+  1 <= r -> 1 <= c -> rect r c M -> computeZ M <> None.
 Proof.
-  intros r c M B Hr Hc HR HB HL.
+  intros r c M Hr Hc HR.
   destruct (init_P1 r c M Hr HR) as [_ [L P]].
   set (n := Nat.max c r) in *.
-  assert (B0 : (0 <= B)%Z) by (specialize (HB 0 0 ltac:(lia) ltac:(lia)); lia).
-  assert (Hnn : forall i j, i < n -> j < n -> (0 <= gz M i j)%Z).
-  { intros i j _ _. destruct (Nat.lt_ge_cases i r) as [Hi|Hi]; [destruct (Nat.lt_ge_cases j c) as [Hj|Hj]|].
-    - apply HB; assumption.
-    - rewrite (gz_outside r c M i j HR); [lia | right; exact Hj].
-    - rewrite (gz_outside r c M i j HR); [lia | left; exact Hi]. }
-  assert (Hle : forall i, (gz M i i <= B)%Z).
-  { intro i. destruct (Nat.lt_ge_cases i r) as [Hi|Hi]; [destruct (Nat.lt_ge_cases i c) as [Hj|Hj]|].
-    - apply HB; assumption.
-    - rewrite (gz_outside r c M i i HR); [lia | right; exact Hj].
-    - rewrite (gz_outside r c M i i HR); [lia | left; exact Hi]. }
-  assert (Hdiag : (lsum (map (fun i => gz M i i) (seq 0 n)) < zmaxsize)%Z).
-  { assert ((lsum (map (fun i => gz M i i) (seq 0 n)) <= lsum (map (fun _ => B) (seq 0 n)))%Z)
-      by (apply lsum_map_le; intros; apply Hle).
-    rewrite lsum_const, seq_length in H. replace (Nat.max r c) with n in HL by (unfold n; lia). lia. }
   unfold computeZ, compute, compute_full.
   change (init Z 0%Z M) with (zinit M). rewrite L.
-  pose proof (drive_total n (gz M) Hnn Hdiag (fuel_for n) 1 (zinit M) []) as DT.
+  pose proof (drive_total n (gz M) (fuel_for n) 1 (zinit M) []) as DT.
   unfold zdrive in DT.
   destruct (drive Z 0%Z Z.add Z.sub Z.ltb Z.eqb zmaxsize (fuel_for n) n (zinit M) 1 []) as [[s tr]|].
   - discriminate.
   - exfalso. apply DT; [|reflexivity]. simpl. split; [exact P|]. unfold fuel_for. nia.
 Qed.
 
-(* total correctness *)
-Theorem munkres_correct : forall (r c : nat) (M : list (list Z)) (B : Z),
+(* total correctness, no hypothesis on the entries *)
+Theorem munkres_correct : forall (r c : nat) (M : list (list Z)),
+  1 <= r -> 1 <= c -> rect r c M ->
+  exists res, computeZ M = Some res
+    /\ is_matching r c res /\ length res = Nat.min r c
+    /\ (forall m, is_matching r c m -> length m = Nat.min r c -> (cost M res <= cost M m)%Z)
+    /\ StronglySorted lt (map fst res)
+    /\ (r = c -> map fst res = seq 0 r).
+Proof.
+  intros r c M Hr Hc HR.
+  destruct (computeZ M) as [res|] eqn:E.
+  - exists res. split; [reflexivity|]. apply (munkres_result_props r c M res Hr Hc HR E).
+  - exfalso. exact (munkres_terminates r c M Hr Hc HR E).
+Qed.
+
+(* the statements of MunkresSpec *)
+Theorem munkres_terminates_spec : munkres_terminates_statement.
+Proof. intros r c M Hr Hc HR _. exact (munkres_terminates r c M Hr Hc HR). Qed.
+
+Theorem munkres_correct_spec : munkres_correct_statement.
+Proof.
+  intros r c M Hr Hc HR _. destruct (munkres_correct r c M Hr Hc HR) as [res [A [B [C [D _]]]]].
+  exists res. auto.
+Qed.
+
+(* the earlier, bounded statements (kept for users written against them) *)
+Theorem munkres_terminates_bounded : forall (r c : nat) (M : list (list Z)) (B : Z),
+  1 <= r -> 1 <= c -> rect r c M ->
+  (forall i j, i < r -> j < c -> (0 <= gz M i j <= B)%Z) ->
+  (Z.of_nat (Nat.max r c) * B < zmaxsize)%Z ->
+  computeZ M <> None.
+Proof. intros r c M B Hr Hc HR _ _. exact (munkres_terminates r c M Hr Hc HR). Qed.
+
+Theorem munkres_correct_bounded : forall (r c : nat) (M : list (list Z)) (B : Z),
   1 <= r -> 1 <= c -> rect r c M ->
   (forall i j, i < r -> j < c -> (0 <= gz M i j <= B)%Z) ->
   (Z.of_nat (Nat.max r c) * B < zmaxsize)%Z ->
@@ -140,9 +148,4 @@ Theorem munkres_correct : forall (r c : nat) (M : list (list Z)) (B : Z),
     /\ (forall m, is_matching r c m -> length m = Nat.min r c -> (cost M res <= cost M m)%Z)
     /\ StronglySorted lt (map fst res)
     /\ (r = c -> map fst res = seq 0 r).
-Proof.
-  intros r c M B Hr Hc HR HB HL.
-  destruct (computeZ M) as [res|] eqn:E.
-  - exists res. split; [reflexivity|]. apply (munkres_result_props r c M res Hr Hc HR E).
-  - exfalso. exact (munkres_terminates r c M B Hr Hc HR HB HL E).
-Qed.
+Proof. intros r c M B Hr Hc HR _ _. exact (munkres_correct r c M Hr Hc HR). Qed.
